@@ -38,7 +38,7 @@ SPEC = {
                   "current mapping, persisted cells) at the granularity of individual atomic operations, for ANY number "
                   "of goroutines, ANY amounts and ANY schedule: reader/lock counting (the reader field never under- or "
                   "overflows), conservation of amounts (upper bound at every instant, exact total at quiescence), no "
-                  "nil-pointer dereference. The model is tied to the code by running the import-rewritten real "
+                  "nil-pointer dereference, and 'nothing remains unpersisted once a file is open and all calls returned' (an obligation-passing invariant: stale pointer => a changer is still invalidating; pending extra => a lock holder, a draining reader, or a pending changer exists). The model is tied to the code by running the import-rewritten real "
                   "internal/counter under a deterministic scheduler in lock step with the extracted model.",
     "level_note": "Trusted: Coq kernel+VM, extraction, OCaml glue, the scheduler/atomic/mutex shims (they define what "
                   "one atomic step is; sequential consistency, which sync/atomic guarantees), the import rewrite of "
